@@ -53,13 +53,13 @@ def run(V, tier, want, cfg="Layouts_cli.cfg"):
         try:
             srv.initialize(ws)
             for slot, r in ctx.files.items():
-                if slot == "tp":
+                if slot in ("tp", "tpi"):
                     continue
                 path = CLI.disk_path(root, slot)
                 srv.did_open(path, r.text)
             for row in cases[0]["goto"]:
                 u = row["u"]
-                if u["file"] == "tp":
+                if u["file"] in ("tp", "tpi"):
                     continue
                 path = CLI.disk_path(root, u["file"])
                 ln, cs, ce = ctx.use_pos(u)
@@ -81,7 +81,7 @@ def run(V, tier, want, cfg="Layouts_cli.cfg"):
                 # inlay type hints: the type shown next to a parameter is the return type of ONE definition
                 hints = {}
                 for slot, r in ctx.files.items():
-                    if slot in ("tp", "pl"):
+                    if slot in ("tp", "pl", "tpi"):
                         continue
                     nl = r.text.count("\n") + 1
                     hs = srv.doc_request("textDocument/inlayHint", CLI.disk_path(root, slot), {
@@ -95,7 +95,7 @@ def run(V, tier, want, cfg="Layouts_cli.cfg"):
                         ln, cs, ce = ctx.use_pos(u)
                         rec["inlay"] = hints.get((u["file"], ln - 1, ce))
             for slot, r in ctx.files.items():
-                if slot == "tp":
+                if slot in ("tp", "tpi"):
                     continue
                 path = CLI.disk_path(root, slot)
                 lens = srv.doc_request("textDocument/codeLens", path) or []
